@@ -30,7 +30,7 @@ N_HYP = {"quick": 400, "thorough": 12000}
 
 def cells(tier):
     out = [{"name": "lattice-%02d" % i, "direct": True, "shard": i, "cost": 1e6} for i in range(NSHARDS)]
-    for v in ("lattice2", "scaled", "degenerate", "duplicates"):
+    for v in ("lattice2", "scaled", "degenerate", "duplicates", "near-duplicates", "needle"):
         out.append({"name": "hyp-" + v, "variant": v, "n": N_HYP[tier]})
     return out
 
@@ -84,6 +84,39 @@ def _hyp_case(draw, variant):
             if mode == "collinear":
                 b = 0.0
             pts.append([base[c] + a * d1[c] + b * d2[c] + eps * draw(f) for c in range(3)])
+    elif variant == "needle":
+        # c = b displaced ALONG the edge a-b by 1e-16..1e-6 plus rounding-level
+        # transverse noise: a triangle that is collinear up to rounding and has
+        # a nearly repeated vertex (GJK on flat boxes produces these)
+        fl = st.floats(-3, 3, allow_nan=False, width=64)
+        a0 = [draw(fl) for _ in range(3)]
+        b0 = [draw(fl) for _ in range(3)]
+        ab = np.array(b0) - np.array(a0)
+        if float(np.linalg.norm(ab)) < 1e-3:
+            b0 = [a0[0] + 1.0, a0[1], a0[2]]
+            ab = np.array([1.0, 0.0, 0.0])
+        e = 10.0 ** draw(st.integers(-16, -6)) * draw(st.sampled_from([1.0, -1.0]))
+        f = st.floats(-1, 1, allow_nan=False, width=64)
+        c0 = (np.array(b0) + e * ab / np.linalg.norm(ab)
+              + 1e-16 * max(1.0, float(np.abs(b0).max())) * np.array([draw(f) for _ in range(3)])).tolist()
+        pts = [a0, b0, c0]
+        if draw(st.booleans()):
+            pts.append([draw(fl) for _ in range(3)])
+        perm = draw(st.permutations(list(range(len(pts)))))
+        pts = [pts[i] for i in perm]
+    elif variant == "near-duplicates":
+        # a vertex repeated up to a perturbation of 1e-16 .. 1e-6 (what GJK
+        # produces when a support point is found again up to rounding)
+        base = [[draw(st.floats(-3, 3, allow_nan=False, width=64)) for _ in range(3)] for _ in range(k)]
+        f = st.floats(-1, 1, allow_nan=False, width=64)
+        pts = []
+        for i in range(k):
+            if i > 0 and draw(st.booleans()):
+                j = draw(st.integers(0, i - 1))
+                e = 10.0 ** draw(st.integers(-16, -6))
+                pts.append([pts[j][c] + e * draw(f) for c in range(3)])
+            else:
+                pts.append(base[i])
     else:
         p0 = [draw(st.floats(-2, 2, allow_nan=False, width=64)) for _ in range(3)]
         pts = [list(p0) if draw(st.booleans()) else [draw(_coord2()) for _ in range(3)] for _ in range(k)]
@@ -215,7 +248,10 @@ def run_direct(cell, seed, tier, known):
         info["fp"] = "L%d" % idx
         stats.record({"points": pts}, info, bool(fails))
         for f in fails:
-            if f["bucket"] not in seen and len(violations) < 5:
+            kid = match_known(f, {"points": pts}, known) if known else None
+            if kid:
+                stats.known_hit(kid, {"points": pts}, f)
+            elif f["bucket"] not in seen and len(violations) < 5:
                 seen.add(f["bucket"])
                 path = write_replay("C18", {"name": cell["name"]}, {"points": pts}, f)
                 violations.append({"bucket": f["bucket"], "msg": f["msg"], "replay": path})
@@ -225,4 +261,13 @@ def run_direct(cell, seed, tier, known):
 
 
 def match_known(f, case, known):
+    """C18-K1: the original GJK's backup procedure compares cofactor-like
+    quantities (which scale with size^6) with an absolute 10*eps; for
+    configurations smaller than ~3e-3 it misclassifies the Voronoi region."""
+    ids = {k["id"] for k in known}
+    m = max(abs(x) for p in case["points"] for x in p)
+    if "C18-K1" in ids and f["bucket"].startswith("original/") and m <= 5e-3:
+        return "C18-K1"
+    if "C18-K2" in ids and f["bucket"].startswith("jolt/") and m <= 1e-5:
+        return "C18-K2"
     return None
